@@ -103,7 +103,25 @@ fn gen(rng: &mut Rng, _idx: u64, tier: Tier) -> Case {
                 let mb2 = one_status_cleared(rng, reg, mb);
                 (mk(rng, ac, mb2), format!("bds{}-status-cleared", reg))
             }
-            20 => { let mb = rng.bits(56); (mk(rng, ac, mb), "mb-random".into()) }
+            20 => {
+                let mb = match rng.below(4) {
+                    0 => rng.bits(56),
+                    // sparse registers: a run of random bits, everything after (or before) it zero -
+                    // the shapes that a shortened reserved-bit range or a missing status test lets through
+                    1 => { let k = rng.range(8, 48) as u32; rng.bits(k) << (56 - k) }
+                    2 => { let k = rng.range(8, 48) as u32; rng.bits(k) }
+                    _ => {
+                        // a valid BDS 4,0 that looks like a capability report to a sloppy test: MB bit 7 set,
+                        // low bits of the pressure field and all mode / source bits zero
+                        let mut f4 = gen::valid_f40(rng);
+                        f4.mcp |= 1 << 6;
+                        f4.baro = (f4.baro & !0x7F).max(128);
+                        f4.s_mode = 0; f4.mode = 0; f4.s_src = 0; f4.src = 0;
+                        mb_bds40(&f4)
+                    }
+                };
+                (mk(rng, ac, mb), "mb-sparse".into())
+            }
             21 => (mk(rng, ac, 0), "mb-zero".into()),
             22 => { let mb = mb_bds10(rng.bits(48)); (mk(rng, ac, mb), "bds10".into()) }
             _ => {
